@@ -183,6 +183,9 @@ pub struct InstOpts {
 }
 
 pub struct Instance {
+    /// per snapshot slot: what the snapshot answered for every key when it was opened (C02: "keeps seeing exactly
+    /// that for as long as it uses S" - compared with every later answer, independently of the model)
+    pub snap_views: Vec<Option<BTreeMap<Key, Option<Vec<u8>>>>>,
     pub dir: PathBuf,
     pub cfg: TreeCfg,
     pub tree: Option<AnyTree>,
@@ -275,6 +278,7 @@ impl Instance {
             model: Model::new(),
             uni,
             extra_keys: vec![],
+            snap_views: vec![],
             snaps: vec![],
             filter,
             shared: opts.shared,
@@ -789,12 +793,28 @@ impl Instance {
                     verif::super_version_parts(&sv).0.id()
                 };
                 self.snaps[*slot] = Some(Snap { seq: s, version_id: vid });
+                {
+                    let t = self.tree().clone();
+                    let mut view = BTreeMap::new();
+                    for k in self.all_keys() {
+                        if let Ok(v) = t.get(&k, s) {
+                            view.insert(k, v.map(|v| v.to_vec()));
+                        }
+                    }
+                    while self.snap_views.len() <= *slot {
+                        self.snap_views.push(None);
+                    }
+                    self.snap_views[*slot] = Some(view);
+                }
                 bump(&mut self.counters, "snapshots_opened", 1);
                 self.battery_for(&[SnapSel::Live(*slot, s)], true)
             }
             Op::SnapRelease { slot } => {
                 if let Some(s) = self.snaps.get_mut(*slot) {
                     *s = None;
+                }
+                if let Some(v) = self.snap_views.get_mut(*slot) {
+                    *v = None;
                 }
                 let min = self.live_snaps().into_iter().min();
                 self.model.prune(min);
@@ -1295,13 +1315,32 @@ impl Instance {
     // -----------------------------------------------------------------------------------------
     // monitors run after ops
 
+    /// Protocol soundness (C02): a snapshot is the visible counter, every later write draws from the seqno counter -
+    /// the visible counter may therefore never run ahead of the seqno counter, or the next write lands below a
+    /// snapshot that was opened before it.
+    fn counter_invariant(&mut self) -> Result<(), Violation> {
+        let (c, v) = (self.seqno.get(), self.visible.get());
+        if c < v {
+            return Err(Violation::new(
+                &self.blame(&["C02"]),
+                "seqno-counter-behind-visible",
+                format!("the visible counter is {v} but the next sequence number to be handed out is {c}: the next write will be visible to a snapshot opened now ({})", self.ctx_name),
+            ));
+        }
+        Ok(())
+    }
+
     fn post_write(&mut self, touched: &[Key]) -> Result<(), Violation> {
+        let r = self.counter_invariant();
+        self.soft(r)?;
         let r = self.seqno_marks();
         self.soft(r)?;
         self.battery(false, touched)
     }
 
     fn post_structural(&mut self) -> Result<(), Violation> {
+        let r = self.counter_invariant();
+        self.soft(r)?;
         let r = self.audit_installs();
         self.soft(r)?;
         let r = self.snapshot_version_invariant();
@@ -1703,6 +1742,22 @@ impl Instance {
                 ))
             }
         };
+        // C02 stability, independent of the model: a held snapshot answers what it answered when it was opened
+        if let SnapSel::Live(slot, _) = sel {
+            if let Some(Some(view)) = self.snap_views.get(slot) {
+                if let Some(first) = view.get(key) {
+                    bump(&mut self.counters, "snapshot_stability_comparisons", 1);
+                    let now = got.as_ref().map(|v| v.to_vec());
+                    if *first != now && exp != Expect::Unknown {
+                        let show = |x: &Option<Vec<u8>>| x.as_ref().map(|v| esc(&v[..v.len().min(24)]));
+                        return Err(fail(
+                            "snapshot-view-changed",
+                            format!("the snapshot answered {:?} when it was opened and answers {:?} now ({})", show(first), show(&now), now.as_ref().map_or(String::new(), |v| self.identify(key, v))),
+                        ));
+                    }
+                }
+            }
+        }
         match exp {
             Expect::Unknown => {
                 bump(&mut self.counters, "point_unknown_skipped", 1);
